@@ -26,8 +26,8 @@ ASSUMPTIONS = [
     "'sum to the total number of examples' is demanded when no pruning option (max_patterns / min_strings_per_pattern) is in force; with pruning only the accounting identity sum = number of examples matched by some expression",
     'the number supplied = number of non-null examples after the explicit discards (empties when removed), repeats counted unless dedup',
 ]
-REQUIRED_MONITORS = ['oracle:c18', 'contract:rex_coverage', 'contract:matrices2incremental_coverage']
-REQUIRED_CLASSES = ['form=list', 'form=dict', 'pruning=0', 'pruning=1', 'repeats=1', 'sampling=1']
+REQUIRED_MONITORS = ['oracle:c18', 'examples:given_by_check_function', 'contract:rex_coverage', 'contract:matrices2incremental_coverage']
+REQUIRED_CLASSES = ['form=list', 'form=dict', 'form=callable', 'pruning=0', 'pruning=1', 'repeats=1', 'sampling=1']
 
 _installed = False
 
@@ -45,6 +45,37 @@ def flush(rec):
     contracts.EVALS.clear()
 
 
+def run_with_check_function(case, freq, supplied):
+    """The documented function form of the examples argument (rexpy.example_check_function): rexpy asks the function which
+    strings the expressions so far fail to match, at most maxN at a time; every string handed over carries its frequency."""
+    import contextlib
+    import io
+    import random
+    import re
+    from tdda.rexpy import rexpy
+    order = sorted(freq)
+
+    def check(rexes, maxN=None):
+        comp = [re.compile(r, re.U | re.S) for r in rexes]
+        fails, counts = [], [0] * len(rexes)
+        for t in order:
+            for k, c in enumerate(comp):
+                if c.fullmatch(t):
+                    counts[k] += freq[t]
+                    break
+            else:
+                fails.append(t)
+        if maxN is not None:
+            fails = fails[:maxN]
+        for t in fails:
+            supplied[t] = freq[t]
+        return rexpy.Examples(fails, [freq[t] for t in fails]), counts
+    if case.get('prng') is not None:
+        random.seed(case['prng'])
+    with contextlib.redirect_stdout(io.StringIO()):
+        return rexpy.Extractor(check, size=RC.make_size(case), seed=case['seed'], **case['kw'])
+
+
 def run_case(ctx, case):
     rec = ctx.rec
     install()
@@ -54,8 +85,17 @@ def run_case(ctx, case):
     pruning = 'max_patterns' in kw or kw.get('min_strings_per_pattern', 1) > 1
     eff = RC.effective_sampling(case)
     repeats = any(n > 1 for n in freq.values())
+    supplied = {}
     try:
-        x = RC.run_extractor(case)
+        if case['form'] == 'callable':
+            x = run_with_check_function(case, freq, supplied)
+            rec.event('examples:given_by_check_function')
+            if len(supplied) < len(freq):
+                rec.note('check function: not every string had to be handed over')
+            freq = collections.Counter(supplied)       # the examples supplied are the ones the function handed over
+            targets = list(freq.elements())
+        else:
+            x = RC.run_extractor(case)
     except Exception as e:
         contracts.drain()
         m = common.short_tb(e)
@@ -154,6 +194,15 @@ def run_shard(ctx):
         if i % 4 == 1 and case['xs']:
             for _ in range(ctx.rng.randint(1, 6)):       # heavy repeats
                 case['xs'].append(ctx.rng.choice(case['xs']))
+        if i % 7 == 3 and not (i % 3 == 0):
+            # the same strings handed over by a check function, a few at a time (small do_all / do_all_exceptions), with frequencies
+            case['form'] = 'callable'
+            case['xs'] = [x_ for x_ in case['xs'] if x_ is not None]
+            case['kw'] = dict(case['kw'], strip=False, remove_empties=False)
+            sz = dict(case['size']) if isinstance(case['size'], dict) else {}
+            sz.update(do_all=ctx.rng.choice([2, 4, 5, 100]), do_all_exceptions=ctx.rng.choice([2, 4, 5]))
+            sz.pop('use_sampling', None)
+            case['size'] = sz
         run_case(ctx, case)
     if ctx.params.get('big'):
         from vt.checks import c03
